@@ -18,6 +18,7 @@ func checkC14(c *an.Ctx) {
 	c.Rule("C14.3", "before exactly once per task execution (E10): ExecutionContext.Before has one call site, in the context-resolution function, outside any loop, and that function has one call site, in Run, outside any loop")
 	c.Rule("C14.4", "after on all exits (E3): once the context is resolved and the output created, every exit of Run runs exactly one ExecutionContext.After on that context (deferred), after the task's own after hooks")
 	c.Rule("C14.5", "down (E3/E4): a named context is registered for cleanup before Up is attempted; Finish calls Down on every registered entry; every cmd/taskctl function that runs a task or a pipeline calls Finish on all its exits")
+	c.Rule("C14.6", "hooks outlive cancellation (E5 provenance): the context handed to the executor by the functions under ExecutionContext.Up/Down/Before/After does not derive from the runner's cancellable context (TaskRunner.ctx, context.WithCancel) — otherwise a cancelled run skips after and down, which C14.4/C14.5 promise on every exit")
 	c.NotDecided = append(c.NotDecided, "'immediately before' in time; ordering between different contexts", "down relative to later CLI targets (Finish is per target)", "watch mode never calls Finish (outside the statement's CLI clause: observation)")
 	p := c.P
 	r := resolveRunner(c, "C14.0")
@@ -27,6 +28,7 @@ func checkC14(c *an.Ctx) {
 	c.OK("C14.0", "runner roles", r.run.Pos(), "context resolution=%s", an.Short(r.ctxFn))
 
 	onceGuards(c, "C14.1")
+	hookContexts(c, "C14.6")
 
 	// C14.2–C14.4 on the Run trace (every helper of pkg/runner inlined)
 	checkRunTable(c, "C14.2", map[string]bool{"order-context": true, "context-failure": true})
@@ -309,5 +311,73 @@ func downRules(c *an.Ctx, r *runnerRoles, rule string) {
 	// Scheduler.Finish forwards to the runner
 	if schedFinish != nil {
 		c.Check(len(an.CallsIn(schedFinish, fnRunnerFinish)) > 0, rule, an.Short(schedFinish)+":forwards", schedFinish.Pos(), "Scheduler.Finish finishes its runner", "Scheduler.Finish does not finish its runner")
+	}
+}
+
+// hookContexts checks C14.6.
+func hookContexts(c *an.Ctx, rule string) {
+	p := c.P
+	var roots []*ssa.Function
+	for _, name := range []string{"Up", "Down", "Before", "After"} {
+		if f := p.Func("pkg/runner", "ExecutionContext", name); f != nil {
+			roots = append(roots, f)
+		}
+	}
+	if len(roots) < 4 {
+		c.Und(rule, "runner.(*ExecutionContext):hooks", token.NoPos, "Up/Down/Before/After not all found")
+		return
+	}
+	scope := p.Reach(roots, func(e an.CallEdge) bool { return an.Outer(e.Callee).Pkg == roots[0].Pkg })
+	n := 0
+	for fn := range scope {
+		for _, ci := range an.CallsIn(fn, fnExecIface, fnExecDefault) {
+			n++
+			args := ci.Common().Args
+			ctxArg := args[0]
+			if !ci.Common().IsInvoke() {
+				ctxArg = args[1]
+			}
+			bad := ""
+			for _, src := range p.DeepSourcesFields(ctxArg, 3) {
+				switch x := src.(type) {
+				case *ssa.Call:
+					switch an.ShortCallee(&x.Call) {
+					case "context.Background", "context.TODO":
+						continue
+					}
+					bad = "the result of " + an.ShortCallee(&x.Call)
+				case *ssa.Extract:
+					if call, ok := x.Tuple.(*ssa.Call); ok {
+						name := an.ShortCallee(&call.Call)
+						if name == "context.WithTimeout" || name == "context.WithDeadline" {
+							// its own deadline; the parent decides
+							ok2 := true
+							for _, ps := range p.DeepSourcesFields(call.Call.Args[0], 3) {
+								if pc, isCall := ps.(*ssa.Call); !isCall || (an.ShortCallee(&pc.Call) != "context.Background" && an.ShortCallee(&pc.Call) != "context.TODO") {
+									ok2 = false
+								}
+							}
+							if ok2 {
+								continue
+							}
+						}
+						bad = "derived by " + name
+					}
+				case *ssa.UnOp:
+					bad = an.FieldProv(x)
+				default:
+					bad = an.FieldProv(src)
+				}
+			}
+			key := an.Short(fn) + ":Execute(ctx)"
+			if bad != "" {
+				c.Bad(rule, key, ci.Pos(), "a context hook command runs on a context that can be %s: when the run is cancelled the after and down commands are killed (or never start), so a cancelled run leaves before without after and up without down", bad)
+			} else {
+				c.OK(rule, key, ci.Pos(), "context hook commands run on context.Background()")
+			}
+		}
+	}
+	if n == 0 {
+		c.Und(rule, "runner.(*ExecutionContext):Execute", token.NoPos, "no executor call under the context hooks")
 	}
 }
